@@ -17,6 +17,8 @@ part ops : ["wrap", kind]  kind in def|async|method|if|try|with|for|nested|while
            ["tuplerhs",k,s] k-th simple assignment gets a bare-tuple or lambda right-hand side
            ["nonascii", k]  non-ASCII string statement in front of the k-th single-line call, on the same line
            ["breakattr", k] k-th `a.b(args)` -> `(a` newline `.b(args))`
+           ["kwcall", k]    k-th call with keywords gets `_p=_other(<copies of its keywords>)`: same keyword names on an unrelated nested call
+           ["dictsplat", k] k-th one-line dict literal gets a leading `**_base_opts` entry
            ["mlimport"]     first one-line `from X import a, b` -> parenthesised form with one name per line
            ["dupimport"]    second binding of the first imported module in the same block, and a use of it
 file ops : ["prepend", n, style]  style in comment|blank|docstring
@@ -439,6 +441,47 @@ def op_tuplerhs(code, k, style):
     return "".join(lines)
 
 
+def op_kwcall(code, k):
+    """k-th single-line call that has keyword arguments gets one more keyword whose value is an unrelated call
+    carrying copies of the same keywords: `f(a, verify=False)` -> `f(a, verify=False, _p=_other(verify=False))`."""
+    calls = [c for c in _single_line_calls(code) if any(kw.arg for kw in c[3].keywords)]
+    if not calls:
+        return code
+    ln, a, b, node = calls[k % len(calls)]
+    lines = code.splitlines(keepends=True)
+    line = lines[ln - 1]
+    pre, v, post = _byte_slice(line, a, b)
+    kws = []
+    for kw in node.keywords:
+        if kw.arg and kw.value.lineno == ln == kw.value.end_lineno:
+            _, txt, _ = _byte_slice(line, kw.value.col_offset, kw.value.end_col_offset)
+            kws.append(f"{kw.arg}={txt}")
+    if not kws or not v.endswith(")") or v[:-1].rstrip().endswith(","):
+        return code
+    if any(kw.arg is None for kw in node.keywords):  # a **mapping must stay last
+        return code
+    lines[ln - 1] = pre + v[:-1] + ", _p=_other(" + ", ".join(kws) + "))" + post
+    return "".join(lines)
+
+
+def op_dictsplat(code, k):
+    """k-th single-line non-empty dict literal gets a leading `**_base_opts` entry."""
+    try:
+        tree = ast.parse(code)
+    except SyntaxError:
+        return code
+    dicts = sorted([n for n in ast.walk(tree) if isinstance(n, ast.Dict) and n.keys and n.lineno == n.end_lineno], key=lambda n: (n.lineno, n.col_offset))
+    if not dicts:
+        return code
+    n = dicts[k % len(dicts)]
+    lines = code.splitlines(keepends=True)
+    pre, v, post = _byte_slice(lines[n.lineno - 1], n.col_offset, n.end_col_offset)
+    if not v.startswith("{"):
+        return code
+    lines[n.lineno - 1] = pre + "{**_base_opts, " + v[1:] + post
+    return "".join(lines)
+
+
 def op_nonascii(code, k):
     """Put a statement with non-ASCII text in front of the k-th single-line call, on the same physical line:
     `x = f(a)` -> `_na = "é日本"; x = f(a)` (byte and character columns of everything after it differ)."""
@@ -526,8 +569,8 @@ def render_part(part, i):
             new, dl, dc = fn(code, op[1], op[2]), 0, 0
             if doc is not None:
                 new = code
-        elif op[0] in ("nonascii", "breakattr"):
-            new, dl, dc = (op_nonascii if op[0] == "nonascii" else op_breakattr)(code, op[1]), 0, 0
+        elif op[0] in ("nonascii", "breakattr", "kwcall", "dictsplat"):
+            new, dl, dc = {"nonascii": op_nonascii, "breakattr": op_breakattr, "kwcall": op_kwcall, "dictsplat": op_dictsplat}[op[0]](code, op[1]), 0, 0
             if doc is not None:
                 new = code
         elif op[0] == "mlimport":
@@ -664,6 +707,8 @@ def part_ops():
             st.just(["mlimport"]),
             st.tuples(st.just("nonascii"), st.integers(0, 5)).map(list),
             st.tuples(st.just("breakattr"), st.integers(0, 5)).map(list),
+            st.tuples(st.just("kwcall"), st.integers(0, 3)).map(list),
+            st.tuples(st.just("dictsplat"), st.integers(0, 3)).map(list),
             st.tuples(st.just("sameline"), st.integers(0, 5)).map(list),
             st.tuples(st.just("nest"), st.integers(0, 5)).map(list),
             st.tuples(st.just("addarg"), st.integers(0, 5), st.sampled_from(["pos", "kw", "star", "comma"])).map(list),
